@@ -24,6 +24,9 @@ def _quiet_unraisable(unraisable):
     world down mid-program; that is teardown noise, not an observation"""
     if isinstance(unraisable.exc_value, AssertionError) and "Deinitializing" in str(unraisable.exc_value):
         return
+    if isinstance(unraisable.exc_value, (ValueError, RuntimeError)) and \
+            type(unraisable.object).__name__ in ("async_generator", "coroutine"):
+        return  # finalisation of a generator / coroutine the torn-down world left suspended
     sys.__unraisablehook__(unraisable)
 
 
